@@ -570,6 +570,10 @@ class Function(Value):
         return self.__name
 
     def ReplaceUses(self, uses):
+        # Passes exchange instruction objects (for instance when rewriting
+        # argument accesses), so the recorded users may be stale by now
+        self.UpdateUses()
+
         for ref, new in uses.items():
             for instruction in self.__uses[ref]:
                 instruction.ReplaceUses(ref, new)
